@@ -22,7 +22,7 @@ ASSUMPTIONS = ["ties within 1e-9 at a beam cut or at the pre-selection threshold
                "such runs are only checked for distinctness and the upper bound",
                "scores are compared with tolerance 1e-9*(1+|x|)"]
 
-LETTERS = ["a", "b", "c", "d", "e", "f", "g"]
+LETTERS = list("abcdefghijklmnop")
 _LONG_LIVED = {}
 
 
@@ -122,7 +122,7 @@ def run_case(ctx, fam, M, k, sel, dtype, tag="rand"):
 
 def strat_case():
     from hypothesis import strategies as st
-    return st.tuples(logprob_matrix(), st.sampled_from([1, 2, 3, 5, 10, 10000]), st.sampled_from(["default", "all"]),
+    return st.tuples(logprob_matrix(big_alphabet=True), st.sampled_from([1, 2, 3, 5, 10, 10000]), st.sampled_from(["default", "all"]),
                      st.sampled_from(["f64", "f64", "f32"]))
 
 
